@@ -317,6 +317,30 @@ func c13FilterError(w *World, r *Recorder) {
 			continue
 		}
 		a := p.Rets[0]
+		if isNil, known := p.St.atoms["nil("+ep+")"]; known && isNil && a.Kind == KNil {
+			// e is nil here: returning nil is returning e, which satisfies both
+			// rows of the specification; the path takes each row's outcome on
+			// that row's cells
+			for _, row := range []struct {
+				atoms map[string]bool
+				tag   string
+			}{{map[string]bool{aOpt: true}, "nil"}, {map[string]bool{aOpt: false, aNip: true}, "nil"}, {map[string]bool{aOpt: false, aNip: false}, "same"}} {
+				cc := cubeOf(p.St, nil, nil)
+				cc.Origin = c.Origin
+				conflict := false
+				for k, v := range row.atoms {
+					if cur, has := cc.Atoms[k]; has && cur != v {
+						conflict = true
+					}
+					cc.Atoms[k] = v
+				}
+				if !conflict {
+					cc.Tag = row.tag
+					got = append(got, cc)
+				}
+			}
+			continue
+		}
 		switch {
 		case a.Kind == KNil:
 			c.Tag = "nil"
